@@ -97,7 +97,7 @@ let () =
         let mode = match sapi with "g" | "x" -> MGraph | "t" -> MTagger | "r" -> MRefPush | _ -> failwith "api" in
         let d0 = List.map nat_of_int (ints sd0) in
         let toks = if strace = "-" then [] else String.split_on_char ',' strace in
-        let tr = List.map event_of toks in
+        List.iter (fun t -> if not (String.length t > 3 && String.sub t 0 3 = "DS.") then ignore (event_of t)) toks;
         (* evaluate the trace on the universe of the first [n] nodes, as a call with configuration
            (root, xroots) in view [ext] *)
         let eval n ext root xroots =
@@ -110,16 +110,29 @@ let () =
           let c = { c_K = eff_K_gen (z_of_int (int_of_string sk)); c_mode = mode; c_root = nat_of_int root; c_mount = mount;
                     c_tagmounted = true; c_cached0 = (if cachedroot then [nat_of_int root] else []); c_xroots = List.map nat_of_int xroots } in
           let closed = ref (closedb g d0) in
-          let rec go fs tr i =
-            match tr with
+          (* DS.<ids> : snapshot of the real destination taken (atomically, controlled schedules) when the
+             preceding event was logged: it must contain everything the model's destination holds, and may
+             exceed it only by nodes whose storing operation is still in flight in the model *)
+          let snapshot_ok fs tok =
+            let ids = (match String.split_on_char '.' tok with
+              | [_; "-"] -> [] | [_; l] -> List.map int_of_string (String.split_on_char '+' l) | _ -> failwith "DS") in
+            let pres = List.filter (fun i -> i < n0) (List.map int_of_nat (present_nodes g fs.fb.dst)) in
+            let inflight i = (match fs.fb.ph (nat_of_int i) with
+              | Pushing (_, _) | Mounting | MtF2 | MtC -> true | _ -> false) in
+            List.for_all (fun i -> List.mem i ids) pres &&
+            List.for_all (fun i -> List.mem i pres || inflight i) ids in
+          let rec go fs toks i =
+            match toks with
             | [] -> Ok fs
-            | e :: tr' ->
-              (match fstep_opt cs g c ext fs e with
+            | tok :: toks' when String.length tok > 3 && String.sub tok 0 3 = "DS." ->
+              if snapshot_ok fs tok then go fs toks' (i + 1) else Error i
+            | tok :: toks' ->
+              (match fstep_opt cs g c ext fs (event_of tok) with
                | None -> Error i
                | Some (fs', _) ->
                  if not (closedb g fs'.fb.dst) then closed := false;
-                 go fs' tr' (i + 1)) in
-          match go (finit c ext d0) tr 0 with
+                 go fs' toks' (i + 1)) in
+          match go (finit c ext d0) toks 0 with
           | Error i -> Printf.sprintf "REJ %d %s" i (List.nth toks i)
           | Ok fs ->
             let st = fs.fb in
